@@ -14,23 +14,23 @@ import (
 
 var components = map[string][]string{
 	"real":      {"memmetrics.RollingCounter", "memmetrics.RatioCounter"},
-	"simulated": {"clock (frozen clock advanced by the coordinator); no scheduling dimension: the counter is documented as externally locked"},
+	"simulated": {"clock (simulated clock advanced by the coordinator; by draw a running clock: time passes before individual reads); no scheduling dimension: the counter is documented as externally locked"},
 }
 
+// inc is an increment that was made at some instant in [t0, t1] (the clock may tick while the call runs)
 type inc struct {
-	t time.Duration
-	v int64
+	t0, t1 time.Duration
+	v      int64
 }
 
-// window sums of a reference list: events strictly younger than lo-span count for the lower bound,
-// events not older than hi-span for the upper bound.
-func bounds(evs []inc, now time.Duration, n int, r time.Duration) (lo, hi int64) {
+// window sums of a reference list for a read made at some instant in [n0, n1]: events certainly younger
+// than (N-1)*r count for the lower bound, events possibly not older than N*r for the upper bound.
+func bounds(evs []inc, n0, n1 time.Duration, n int, r time.Duration) (lo, hi int64) {
 	for _, e := range evs {
-		age := now - e.t
-		if age < time.Duration(n-1)*r {
+		if n1-e.t0 < time.Duration(n-1)*r {
 			lo += e.v
 		}
-		if age <= time.Duration(n)*r {
+		if n0-e.t1 <= time.Duration(n)*r {
 			hi += e.v
 		}
 	}
@@ -92,8 +92,8 @@ func c17prop(r *simkit.Run) {
 	n := rapid.IntRange(1, 20).Draw(rt, "buckets")
 	res := drawResolution(rt)
 	epoch := time.Unix(rapid.Int64Range(1_000_000_000, 2_000_000_000).Draw(rt, "epoch-s"), rapid.Int64Range(0, 999_999_999).Draw(rt, "epoch-ns")).UTC()
-	clock.Freeze(epoch)
-	defer clock.Unfreeze()
+	clock.SimFreeze(epoch)
+	defer clock.SimUnfreeze()
 	ratioMode := rapid.Bool().Draw(rt, "ratio-counter")
 	var (
 		c    *memmetrics.RollingCounter
@@ -110,7 +110,34 @@ func c17prop(r *simkit.Run) {
 	if err != nil {
 		rt.Fatalf("constructor refused buckets=%d resolution=%v: %v", n, res, err)
 	}
-	now := func() time.Duration { return clock.Now().UTC().Sub(epoch) }
+	now := func() time.Duration { return clock.SimPeek().UTC().Sub(epoch) } // looking at the clock from outside does not make time pass
+	// by draw the clock is a running one: some time passes before each read the counter makes of it
+	// (mostly none, sometimes up to and across the next slot boundary), so a call takes place over an interval
+	ticks := 0
+	var tick func() time.Duration
+	if rapid.IntRange(0, 3).Draw(rt, "running-clock") == 0 {
+		tick = func() time.Duration {
+			var d time.Duration
+			switch rapid.IntRange(0, 11).Draw(rt, "tick") {
+			case 0:
+				d = 1
+			case 1:
+				d = time.Duration(rapid.Int64Range(1, int64(res)).Draw(rt, "tick-sub"))
+			case 2: // exactly onto the next multiple of the resolution
+				t := clock.SimPeek()
+				d = t.Truncate(res).Add(res).Sub(t)
+			case 3:
+				d = res
+			}
+			if d > 0 {
+				ticks++
+			}
+			return d
+		}
+		clock.SimTick(tick)
+	}
+	var t0 time.Duration // start of the call under way
+	begin := func() { t0 = now() }
 	h := simkit.NewHash()
 	reads, nontrivialReads, gaps := 0, 0, 0
 	var trace []string
@@ -120,7 +147,7 @@ func c17prop(r *simkit.Run) {
 		}
 	}
 	checkCount := func(what string, got int64, evs []inc) {
-		lo, hi := bounds(evs, now(), n, res)
+		lo, hi := bounds(evs, t0, now(), n, res)
 		reads++
 		if lo != hi || lo > 0 {
 			nontrivialReads++
@@ -128,8 +155,8 @@ func c17prop(r *simkit.Run) {
 		h.Int(got)
 		if got < lo || got > hi {
 			r.Tracef("history: %v", trace)
-			r.Fail("window-count", "%s = %d at t=%v, but increments within the last (N-1)*r=%v sum to %d and within the last N*r=%v to %d (N=%d r=%v epoch %v)",
-				what, got, now(), time.Duration(n-1)*res, lo, time.Duration(n)*res, hi, n, res, epoch)
+			r.Fail("window-count", "%s = %d read during t=[%v, %v], but increments within the last (N-1)*r=%v sum to %d and within the last N*r=%v to %d (N=%d r=%v epoch %v)",
+				what, got, t0, now(), time.Duration(n-1)*res, lo, time.Duration(n)*res, hi, n, res, epoch)
 		}
 	}
 	// counter mode works on a small population: the first counter plus clones that are
@@ -154,27 +181,31 @@ func c17prop(r *simkit.Run) {
 			v := rapid.IntRange(0, 5).Draw(rt, "v")
 			if ratioMode {
 				if rapid.Bool().Draw(rt, "a?") {
+					begin()
 					rc.IncA(v)
-					evsA = append(evsA, inc{now(), int64(v)})
+					evsA = append(evsA, inc{t0, now(), int64(v)})
 					note("IncA(%d)", v)
 				} else {
+					begin()
 					rc.IncB(v)
-					evsB = append(evsB, inc{now(), int64(v)})
+					evsB = append(evsB, inc{t0, now(), int64(v)})
 					note("IncB(%d)", v)
 				}
 			} else {
 				in := pick("which")
+				begin()
 				in.c.Inc(v)
-				in.evs = append(in.evs, inc{now(), int64(v)})
+				in.evs = append(in.evs, inc{t0, now(), int64(v)})
 				note("#%d.Inc(%d)", in.id, v)
 			}
 		case "read":
 			if ratioMode {
 				if rapid.Bool().Draw(rt, "ratio?") {
+					begin()
 					got := rc.Ratio()
 					note("Ratio()=%v", got)
-					aLo, aHi := bounds(evsA, now(), n, res)
-					bLo, bHi := bounds(evsB, now(), n, res)
+					aLo, aHi := bounds(evsA, t0, now(), n, res)
+					bLo, bHi := bounds(evsB, t0, now(), n, res)
 					frac := func(a, b int64) float64 {
 						if a+b == 0 {
 							return 0
@@ -192,13 +223,18 @@ func c17prop(r *simkit.Run) {
 						r.Fail("ratio", "Ratio() = %v at t=%v, admissible [%v, %v] (A in [%d,%d], B in [%d,%d], N=%d r=%v)", got, now(), lo, hi, aLo, aHi, bLo, bHi, n, res)
 					}
 				} else {
-					a, b := rc.CountA(), rc.CountB()
-					note("CountA()=%d CountB()=%d", a, b)
+					begin()
+					a := rc.CountA()
+					note("CountA()=%d", a)
 					checkCount("CountA()", a, evsA)
+					begin()
+					b := rc.CountB()
+					note("CountB()=%d", b)
 					checkCount("CountB()", b, evsB)
 				}
 			} else {
 				in := pick("which")
+				begin()
 				got := in.c.Count()
 				note("#%d.Count()=%d", in.id, got)
 				checkCount(fmt.Sprintf("#%d.Count()", in.id), got, in.evs)
@@ -208,7 +244,7 @@ func c17prop(r *simkit.Run) {
 			if d > time.Duration(n)*res {
 				gaps++
 			}
-			clock.Advance(d)
+			clock.SimAdvance(d)
 			r.SimTime(d)
 		case "reset":
 			if rapid.IntRange(0, 3).Draw(rt, "really") == 0 {
@@ -226,6 +262,7 @@ func c17prop(r *simkit.Run) {
 		case "clone":
 			if !ratioMode {
 				src := pick("which")
+				begin()
 				cl := src.c.Clone()
 				got := cl.Count()
 				note("#%d.Clone().Count()=%d", src.id, got)
@@ -240,12 +277,15 @@ func c17prop(r *simkit.Run) {
 			if !ratioMode && len(insts) > 1 {
 				a, b := pick("into"), pick("from")
 				if a != b {
+					clock.SimTick(nil) // Append reads the other counter itself: no time passes between that read and ours
+					begin()
 					got := b.c.Count()
 					checkCount(fmt.Sprintf("#%d.Count()", b.id), got, b.evs)
 					if err := a.c.Append(b.c); err != nil {
 						r.Fail("append-refused", "#%d.Append(#%d): %v", a.id, b.id, err)
 					}
-					a.evs = append(a.evs, inc{now(), got})
+					a.evs = append(a.evs, inc{t0, now(), got})
+					clock.SimTick(tick)
 					appends++
 					note("#%d.Append(#%d) adds %d", a.id, b.id, got)
 				}
@@ -260,6 +300,7 @@ func c17prop(r *simkit.Run) {
 	r.ProbeN("multi-window-gap", gaps)
 	r.ProbeN("clone-kept-and-used-later", keptClones)
 	r.ProbeN("append", appends)
+	r.ProbeN("time-passed-between-clock-reads", ticks)
 	if res != time.Second {
 		r.Probe("resolution!=1s")
 	}
